@@ -10,8 +10,8 @@ P09 == [p \in {".", "a", "ab", "b", "c", "d", "d/a", "d/b", "e", "e/a"} |->
           IF p \in {"d/a", "d/b"} THEN "d" ELSE IF p = "e/a" THEN "e" ELSE "."]
 U09q == <<".", "a", "ab", "b", "d", "d/a", "e">>
 P09q == [p \in {".", "a", "ab", "b", "d", "d/a", "e"} |-> IF p = "d/a" THEN "d" ELSE "."]
-U11 == <<".", "d", "d/f", "f", "l", "ro", "ro/f">>
-P11 == [p \in {".", "d", "d/f", "f", "l", "ro", "ro/f"} |-> IF p = "d/f" THEN "d" ELSE IF p = "ro/f" THEN "ro" ELSE "."]
+U11 == <<".", "d", "d/f", "dev", "f", "k", "l", "ro", "ro/f">>
+P11 == [p \in {".", "d", "d/f", "dev", "f", "k", "l", "ro", "ro/f"} |-> IF p = "d/f" THEN "d" ELSE IF p = "ro/f" THEN "ro" ELSE "."]
 
 U13 == <<".", "a", "b", "c", "d", "d/a", "d/b", "d/e", "d/e/a">>
 P13 == [p \in {".", "a", "b", "c", "d", "d/a", "d/b", "d/e", "d/e/a"} |-> IF p \in {"d/a", "d/b", "d/e"} THEN "d" ELSE IF p = "d/e/a" THEN "d/e" ELSE "."]
